@@ -241,26 +241,18 @@ Definition dom_fixed (u : unit_t) (r : refdate) (vals : list Z) : bool :=
   ref_is_jan1_midnight r && forallb (whole_days u) vals.
 
 (* ---- inverse mappings on a CF time variable (standard calendars) *)
-(* netCDF4.date2num in exact arithmetic: value in 1/64 units, None if not on the grid *)
-(* date2num hands the SAME units string to cftime, whose own parser ignores an hour that is not followed
-   by minutes (and the zone after it): 'hours since 2000-03-01 19+0100' has reference 2000-03-01T00:00Z there *)
-Definition sp_hour_only (s : spelling) : bool :=
-  match s with SpH | SpH_UTC | SpH_Z | SpH_tz => true | _ => false end.
-Definition cftime_ref_us (r : refdate) (p : Z * Z * Z * Z * Z * Z * Z) : Z :=
-  if sp_hour_only (r_sp r) then let '(y, m, d, _, _, _, _) := p in days_of_civil y m d * 86400 * us_sec
-  else ref_us p.
+(* date2num (repaired by fixes/C12-date2num-refdate.patch) rewrites the units with the reference date read by
+   _parse_ref_date, converted to UTC, before calling netCDF4.date2num: one parser for both directions.
+   netCDF4.date2num in exact arithmetic: value in 1/64 units, None if not on the grid *)
 Definition impl_date2num (u : unit_t) (r : refdate) (dts : list (list Z)) : option (list Z) :=
   match impl_parse r, unit_us64 u with
   | Some p, Some k =>
-      let r0 := cftime_ref_us r p in
+      let r0 := ref_us p in
       all_some (map (fun l => match us_of_dt l with
                               | Some t => if (t - r0) mod k =? 0 then Some ((t - r0) / k) else None
                               | None => None end) dts)
   | _, _ => None
   end.
-(* spellings on which both parsers agree *)
-Definition d2n_consistent (r : refdate) : bool :=
-  negb (sp_hour_only (r_sp r)) || ((r_H r =? 0) && ((r_tz r =? 0) || negb (sp_hasTz (r_sp r)))).
 
 (* val2idx(method='nearest') = round-half-even(np.interp(v, xs, arange n)) on an ascending coordinate *)
 Definition round_half_even (num den : Z) : Z :=     (* den > 0 *)
@@ -360,13 +352,9 @@ Definition impl_flag_of_us (t : Z) : Z * Z := flag_of_sec (t / us_sec).   (* str
 
 (* ---------------------------------------------------------------- add_time_variable: synthesised CF time
    values are seconds since 1970-01-01 00:00:00+0000 (whole seconds) *)
-Definition ndigits_ge7 (t : Z) : Z :=   (* number of decimal digits, for t >= 1000000 (int32) *)
-  if t <? 10000000 then 7 else if t <? 100000000 then 8 else if t <? 1000000000 then 9 else 10.
-(* tmp = '%06d' % TSTEP ; 3600*int(tmp[:2]) + 60*int(tmp[2:4]) + int(tmp[4:]) ; only TSTEP >= 0 modelled *)
-Definition impl_tmpseconds (t : Z) : Z :=
-  if t <? 1000000 then (t / 10000) * 3600 + (t / 100 mod 100) * 60 + t mod 100
-  else let k := ndigits_ge7 t in
-       (t / 10 ^ (k - 2)) * 3600 + (t / 10 ^ (k - 4) mod 100) * 60 + t mod 10 ^ (k - 4).
+(* tmp = '%06d' % TSTEP ; 3600*int(tmp[:-4]) + 60*int(tmp[-4:-2]) + int(tmp[-2:])  -- the same digit split as
+   getTimes (repaired by fixes/C12-add-time-variable-tstep.patch; before, tmp[:2]/tmp[2:4]/tmp[4:] misread >= 100 h) *)
+Definition impl_tmpseconds (t : Z) : Z := impl_tstep_sec t.
 
 (* with a TFLAG variable: rows parsed strictly; first date 0 -> [SDATE] only (and then broadcast) *)
 Definition impl_synth_flags (sdate : Z) (flags : list (Z * Z)) : option (list Z) :=
